@@ -1810,6 +1810,11 @@ class HasRounds(GenericHandler):
         # reads default_rounds internally.
         if cls.vary_rounds:
             lower, upper = cls._calc_vary_rounds_range(rounds)
+            # NOTE: the range is only clipped to the *desired* rounds (which may be unset);
+            #       never leave the hash's own hard limits, or hash() would raise.
+            lower = max(lower, cls.min_rounds)
+            if cls.max_rounds:
+                upper = min(upper, cls.max_rounds)
             assert lower <= rounds <= upper
             if lower < upper:
                 rounds = rng.randint(lower, upper)
